@@ -28,6 +28,12 @@ CHECKS = {
    note='Trusted: the baton scheduler (real threads, one runs at a time), ply itself, the fresh-engine reference. Pre-emption only at token fetches / Python line boundaries of ply+yaql frames.',
    technique='deterministic simulation: seeded baton scheduler over real threads at token-fetch / line granularity, fresh-engine oracle, schedule shrinking + replay',
    quick_timeout=900, thorough_timeout=21600),
+ 'C06': dict(
+   category='fault_enumeration', design_ref='DESIGN.md 3.2',
+   text='The enumeration order of identity-hashed overload sets is the injected nondeterminism. For seeded overload families over a subtype lattice (biased to >=2-3 simultaneously matching candidates, the shapes named in the property) and for every multi-overload name of the real default/legacy chains, each call is resolved under ALL permutations of the family (<=720; sampled above), under registration orders with simulator-assigned identity hashes, and through Context/MultiContext/LinkedContext; the outcome (payload tag or exception class) must be identical. Exhaustive per family in the permutation space, sampled in the family space.',
+   note='Trusted: ContextBase.collect_functions is the only funnel between contexts and choose_overload (S-order seam sits there); natural set order is a function of FunctionDefinition.__hash__ (S-hash seam) and insertion order.',
+   technique='deterministic simulation with fault enumeration: simulator-owned enumeration order / identity hash of overload sets, all permutations per seeded family, metamorphic same-outcome oracle, shrinking + replay',
+   quick_timeout=900, thorough_timeout=21600),
 }
 
 
